@@ -483,6 +483,33 @@ def _run_codec_side(exe, cases, lines, wd, tag, shards, timeout, env=None):
         fo.close()
         rc, err = _retry_hangs(argv, path, outp, p.returncode, err, e, timeout)
         got = open(outp).read().splitlines()
+        # the IMPLEMENTATION's process dying on a case (a signal, an abort) is the result of that case: `abort(..)`; the
+        # rest of the shard is run in a new process under the same declarations
+        flines = [l for l in open(path).read().splitlines() if l.strip()]
+        tries = 0
+        while rc != 0 and "dharness" in os.path.basename(exe) and len(got) < k:
+            tries += 1
+            idx = len(got)
+            got.append(f"abort({rc})")
+            rest = flines[idx + 1:]
+            if tries >= 12 or not rest:
+                got += ["env" if l.split(" ", 1)[0] in ("E", "E2") else
+                        f"abort(not run: the process died on {tries} cases of this shard)" for l in rest]
+                rc = 0
+                break
+            last_e, last_e2 = None, None
+            for l in flines[:idx + 1]:
+                if l.startswith("E "):
+                    last_e, last_e2 = l, None
+                elif l.startswith("E2 "):
+                    last_e2 = l
+            ctx = [x for x in (last_e, last_e2) if x]
+            rpath = path + f".resume{tries}"
+            write_lines(rpath, ctx + rest)
+            with open(rpath + ".out", "w") as fo2:
+                pr = subprocess.run([exe, "codec", rpath], stdout=fo2, stderr=subprocess.PIPE, env=e, text=True, timeout=timeout)
+            rc, err = _retry_hangs([exe, "codec", rpath], rpath, rpath + ".out", pr.returncode, pr.stderr, e, timeout)
+            got += open(rpath + ".out").read().splitlines()[len(ctx):]
         if rc != 0 or len(got) != k:
             raise Undecided(f"{exe} codec ({tag}): exit {rc}, {len(got)}/{k} lines\n{(err or '')[-2000:]}")
         out.extend(l for l in got if l != "env")
